@@ -48,6 +48,14 @@ def scenarios(ctx, thorough):
         scs.append(S.mk(sid, "after-rotation-" + w, "robust",
                         [P(90), {"a": "Rotate"}, S.call("c1", 11), {"a": "Answer", "tags": [11], "n": 600}, {"a": "Await", "c": "c1"},
                          {"a": "Push", "what": w}, {"a": "Settle"}, P(91), {"a": "Push", "what": w}, P(92), {"a": "Settle"}]))
+    # a result the client cannot read for a request that is waiting, sent once, twice and three times (it is never acknowledged,
+    # so a server sends it again), then the result in a readable form: the loop reads on, the caller gets its answer
+    for n in (1, 2, 3):
+        for kind in ("object", "vecint"):
+            sid += 1
+            scs.append(S.mk(sid, "undecodable-result-x%d-%s" % (n, kind), "robust", [P(90), S.call("c1", 11, kind), {"a": "Sleep", "n": 80}] +
+                            [{"a": "Push", "what": "undecodable_result_for_pending"}] * n +
+                            [{"a": "Sleep", "n": 150}, P(91), {"a": "Answer", "tags": [11], "n": 400}, {"a": "Drain"}, P(92), {"a": "Settle"}]))
     # the session store fails while the server makes the client write to it (salt rotation, new session): a local fault
     # is no reason for the process to die on a server message
     sid += 1
